@@ -3,7 +3,10 @@
 package main
 
 import (
+	"context"
 	"encoding/base64"
+	"errors"
+	"sync"
 	"fmt"
 	"os"
 	"strconv"
@@ -27,9 +30,81 @@ var curSensor *sensorWorld
 var sensorDirBase string
 var sensorCounter int
 
+// scriptedSensor: what the sensor monitor sees of a sensor whose reads succeed `good` times with one value and fail from
+// then on (a long outage); it counts the polls
+type scriptedSensor struct {
+	mu     sync.Mutex
+	avg    float64
+	value  float64
+	good   int
+	polls  int
+	target int
+	hit    chan struct{}
+}
+
+func (s *scriptedSensor) GetId() string { return "scripted" }
+func (s *scriptedSensor) GetConfig() configuration.SensorConfig {
+	return configuration.SensorConfig{ID: "scripted"}
+}
+func (s *scriptedSensor) GetValue() (float64, error) {
+	s.mu.Lock()
+	defer s.mu.Unlock()
+	s.polls++
+	if s.polls == s.target {
+		close(s.hit)
+	}
+	if s.polls <= s.good {
+		return s.value, nil
+	}
+	return 0, errors.New("sensor outage")
+}
+func (s *scriptedSensor) GetMovingAvg() float64    { s.mu.Lock(); defer s.mu.Unlock(); return s.avg }
+func (s *scriptedSensor) SetMovingAvg(avg float64) { s.mu.Lock(); defer s.mu.Unlock(); s.avg = avg }
+
+// snMonitor runs the REAL sensor monitor (internal.NewSensorMonitor(...).Run, real ticker) over a scripted sensor until
+// it has polled `polls` times, then cancels it: the monitor must survive the outage and stop cleanly
+func snMonitor(a kv) (res string) {
+	configuration.CurrentConfig.TempRollingWindowSize = a.int("win", 10)
+	s := &scriptedSensor{avg: a.f64("avg", 0), value: a.f64("val", 0), good: a.int("good", 3), target: a.int("polls", 60), hit: make(chan struct{})}
+	ctx, cancel := context.WithCancel(context.Background())
+	defer cancel()
+	done := make(chan string, 1)
+	go func() {
+		defer func() {
+			if r := recover(); r != nil {
+				done <- "panic:" + panicClass(r)
+			}
+		}()
+		err := internal.NewSensorMonitor(s, time.Duration(a.int("rate_us", 500))*time.Microsecond).Run(ctx)
+		if err != nil {
+			done <- "err"
+		} else {
+			done <- "ok"
+		}
+	}()
+	select {
+	case <-s.hit:
+		cancel()
+		select {
+		case res = <-done:
+		case <-time.After(10 * time.Second):
+			res = "hang"
+		}
+	case res = <-done: // ended on its own before the polls were made
+		if res == "ok" {
+			res = "stopped-early"
+		}
+	case <-time.After(30 * time.Second):
+		res = "stalled" // the monitor stopped polling
+	}
+	return "res=" + res + " avg=" + fmtF(s.GetMovingAvg())
+}
+
 func init() {
 	register("sn", func(op string, a kv) string {
 		switch op {
+		case "sn.monitor":
+			return snMonitor(a)
 		case "sn.new":
 			if sensorDirBase == "" {
 				d, err := os.MkdirTemp("", "verifsensor")
